@@ -3,41 +3,17 @@
    folds of `solve` (lower bounds -> bottom, upper bounds -> top). *)
 From Coq Require Import List Bool Arith Lia Permutation.
 Import ListNotations.
-Require Import PV.TypeVar.Base PV.TypeVar.Model.
-
-(* What the theorems assume about acceptance, union and Any.  `acc a b` reads
-   "a accepts b" (b is assignable to a).  Any accepts and is accepted by
-   everything, so transitivity is only assumed through a middle value that is
-   not Any.  TypeVar/Simple.v proves all of this for literals/classes/unions
-   over any preorder of atoms; for pyanalyze's full can_assign these are
-   validated by the correspondence stream only. *)
-Record acc_laws {V : Type} (O : ops V) : Prop := {
-  acc_refl : forall a, acc O a a = true;
-  acc_any_l : forall a b, is_any O a = true -> acc O a b = true;
-  acc_any_r : forall a b, is_any O b = true -> acc O a b = true;
-  acc_trans : forall a b c, is_any O b = false ->
-      acc O a b = true -> acc O b c = true -> acc O a c = true;
-  unite_ub_l : forall a b, acc O (unite O a b) a = true;
-  unite_ub_r : forall a b, acc O (unite O a b) b = true;
-  unite_least : forall x a b, acc O x a = true -> acc O x b = true -> acc O x (unite O a b) = true;
-  unite_not_any : forall a b, is_any O a = false -> is_any O b = false ->
-      is_any O (unite O a b) = false;
-  any_generic_is_any : is_any O (any_generic O) = true;
-  any_inference_is_any : is_any O (any_inference O) = true;
-  veq_spec : forall a b, veq O a b = true <-> a = b
-}.
+Require Import PV.TypeVar.Base PV.TypeVar.Model PV.TypeVar.Spec.
 
 Section Folds.
   Context {V : Type} (O : ops V).
 
-  Definition last_oneof (bs : list (bound V)) : option (list V) :=
-    fold_left (fun acc0 cs => Some cs) (oneofs bs) None.
 
   Lemma mfold_gen : forall bs bo to op,
     fold_left (mstep O) bs (bo, to, op) =
     (fold_left (add_lower O) (lowers bs) bo,
      fold_left (add_upper O) (uppers bs) to,
-     fold_left (fun acc0 cs => Some cs) (oneofs bs) op).
+     fold_left (fun _ cs => Some cs) (oneofs bs) op).
   Proof.
     induction bs as [|b bs IH]; intros bo to op; cbn; [reflexivity|].
     destruct b as [v|v| |cs]; cbn; rewrite IH; reflexivity.
@@ -49,14 +25,14 @@ Section Folds.
                   last_oneof bs).
   Proof. intros bs. unfold mfold. apply mfold_gen. Qed.
 
-  Lemma last_oneof_in : forall bs cs, last_oneof bs = Some cs -> In cs (oneofs bs).
+  Lemma last_oneof_in : forall (bs : list (bound V)) cs, last_oneof bs = Some cs -> In cs (oneofs bs).
   Proof.
     intros bs cs. unfold last_oneof.
     induction (oneofs bs) as [|c l IH] using rev_ind; cbn; [discriminate|].
     rewrite fold_left_app. cbn. intros H. injection H as <-. apply in_or_app. right. left. reflexivity.
   Qed.
 
-  Lemma last_oneof_none : forall bs, last_oneof bs = None <-> oneofs bs = [].
+  Lemma last_oneof_none : forall (bs : list (bound V)), last_oneof bs = None <-> oneofs bs = [].
   Proof.
     intros bs. unfold last_oneof.
     destruct (oneofs bs) as [|c l] using rev_ind; cbn; [tauto|].
@@ -136,16 +112,9 @@ Section Folds.
   Qed.
 
   (* ---- upper bounds ---- *)
-  Definition comparable (a b : V) : bool := acc O a b || acc O b a.
 
-  (* guard clause `comparable_uppers`: no Any among the upper bounds and every
-     two of them comparable.  Its negation is the class of known finding
-     C15-incomparable-or-any-uppers. *)
-  Definition uppers_ok (us : list V) : bool :=
-    forallb (fun a => negb (is_any O a)) us &&
-    forallb (fun a => forallb (comparable a) us) us.
 
-  Lemma uppers_ok_spec : forall us, uppers_ok us = true ->
+  Lemma uppers_ok_spec : forall us, uppers_ok O us = true ->
     (forall a, In a us -> is_any O a = false) /\
     (forall a b, In a us -> In b us -> acc O a b = true \/ acc O b a = true).
   Proof.
